@@ -1,13 +1,58 @@
 (* Model of embedded-cli-macros/src/command/doc.rs: from the #[doc = "..."] attributes of a variant or field (one per `///` line, or one
    with line feeds inside for a block comment) to the summary (short) and the description (long) the generated help prints.
-   Whitespace is ASCII whitespace (str::trim also strips the other Unicode White_Space characters; doc comments with those are outside
-   the model). *)
+   Whitespace is what str::trim strips: the characters with the Unicode White_Space property (char::is_whitespace), here on their UTF-8
+   encodings: U+0009..U+000D, U+0020, U+0085, U+00A0, U+1680, U+2000..U+200A, U+2028, U+2029, U+202F, U+205F, U+3000. *)
 From EC Require Import Base.
 
 Definition is_ws (b : N) : bool := (b =? 32) || ((9 <=? b) && (b <=? 13)).
-Definition is_blank (s : list N) : bool := forallb is_ws s.
-Fixpoint trim_l (s : list N) : list N := match s with b :: r => if is_ws b then trim_l r else s | [] => [] end.
-Definition trim (s : list N) : list N := rev (trim_l (rev (trim_l s))).
+(* number of octets of a White_Space character at the head of s (0: the text does not start with one) *)
+Definition ws_head (s : list N) : nat :=
+  match s with
+  | [] => O
+  | b :: r =>
+    if is_ws b then 1%nat else
+    match r with
+    | c :: r' =>
+      if (b =? 194) && ((c =? 133) || (c =? 160)) then 2%nat else
+      match r' with
+      | d :: _ =>
+        if (b =? 225) && (c =? 154) && (d =? 128) then 3%nat else
+        if (b =? 226) && (c =? 128) && (((128 <=? d) && (d <=? 138)) || (d =? 168) || (d =? 169) || (d =? 175)) then 3%nat else
+        if (b =? 226) && (c =? 129) && (d =? 159) then 3%nat else
+        if (b =? 227) && (c =? 128) && (d =? 128) then 3%nat else O
+      | [] => O
+      end
+    | [] => O
+    end
+  end.
+(* the same at the END of the text, given reversed *)
+Definition ws_last (s : list N) : nat :=
+  match s with
+  | [] => O
+  | d :: r =>
+    if is_ws d then 1%nat else
+    match r with
+    | c :: r' =>
+      if (c =? 194) && ((d =? 133) || (d =? 160)) then 2%nat else
+      match r' with
+      | b :: _ =>
+        if (b =? 225) && (c =? 154) && (d =? 128) then 3%nat else
+        if (b =? 226) && (c =? 128) && (((128 <=? d) && (d <=? 138)) || (d =? 168) || (d =? 169) || (d =? 175)) then 3%nat else
+        if (b =? 226) && (c =? 129) && (d =? 159) then 3%nat else
+        if (b =? 227) && (c =? 128) && (d =? 128) then 3%nat else O
+      | [] => O
+      end
+    | [] => O
+    end
+  end.
+Fixpoint strip (f : list N -> nat) (fuel : nat) (s : list N) : list N :=
+  match fuel with
+  | O => s
+  | S n => match f s with O => s | k => strip f n (skipn k s) end
+  end.
+Definition trim_l (s : list N) : list N := strip ws_head (length s) s.
+Definition trim (s : list N) : list N := let t := rev (trim_l s) in rev (strip ws_last (length t) t).
+Definition is_blank (s : list N) : bool := match trim_l s with [] => true | _ => false end.
 
 (* split('\n') *)
 Fixpoint split_lf (cur : list N) (s : list N) : list (list N) :=
